@@ -488,7 +488,7 @@ func (c *c10) randMany(r *rand.Rand, cur PVal) (PEditOp, bool) {
 		switch f.Card {
 		case "rep":
 			op.Path = cat(items, PItem{K: "id", N: f.Num, B: B{}})
-			n := 1 + r.Intn(3)
+			n := 1 + r.Intn(4)
 			used := map[int]bool{}
 			next := len(f.E)
 			for k := 0; k < n; k++ {
@@ -503,8 +503,29 @@ func (c *c10) randMany(r *rand.Rand, cur PVal) (PEditOp, bool) {
 				used[i] = true
 				op.Many = append(op.Many, PManyItem{It: PItem{K: "idx", N: i, B: B{}}, Sub: newVal(fd)})
 			}
-			// appended indices must come in ascending order after the replacements
+			// appended indices must come in ascending order among themselves (each one is "one past the end" when its turn
+			// comes); the replacements may be listed anywhere between them
 			sort.SliceStable(op.Many, func(a, b int) bool { return op.Many[a].It.N < op.Many[b].It.N })
+			if r.Intn(2) == 0 {
+				var reps, apps []PManyItem
+				for _, m := range op.Many {
+					if m.It.N < len(f.E) {
+						reps = append(reps, m)
+					} else {
+						apps = append(apps, m)
+					}
+				}
+				r.Shuffle(len(reps), func(a, b int) { reps[a], reps[b] = reps[b], reps[a] })
+				var mixed []PManyItem
+				for len(reps) > 0 || len(apps) > 0 {
+					if len(apps) == 0 || (len(reps) > 0 && r.Intn(2) == 0) {
+						mixed, reps = append(mixed, reps[0]), reps[1:]
+					} else {
+						mixed, apps = append(mixed, apps[0]), apps[1:]
+					}
+				}
+				op.Many = mixed
+			}
 			return op, true
 		case "map":
 			op.Path = cat(items, PItem{K: "id", N: f.Num, B: B{}})
